@@ -48,7 +48,38 @@ class Attrs:
         return sorted(self._d)
 
     def items(self):
-        return [(k, self._d[k]) for k in sorted(self._d)]
+        return [(k, copy.deepcopy(self._d[k])) for k in sorted(self._d)]
+
+    def values(self):
+        return [copy.deepcopy(self._d[k]) for k in sorted(self._d)]
+
+    def get(self, k, default=None):
+        return copy.deepcopy(self._d[k]) if k in self._d else default
+
+    def __len__(self):
+        return len(self._d)
+
+    def __delitem__(self, k):
+        _write(f"del attr {self._owner}:{k}")
+        del self._d[k]
+
+    def pop(self, k, *default):
+        if k in self._d:
+            _write(f"del attr {self._owner}:{k}")
+            return self._d.pop(k)
+        if default:
+            return default[0]
+        raise KeyError(k)
+
+    def update(self, other):
+        for k, v in dict(other).items():
+            self[k] = v
+
+    def create(self, k, data, **kw):
+        self[k] = data
+
+    def modify(self, k, v):
+        self[k] = v
 
 
 class Dataset:
